@@ -186,7 +186,7 @@ class Prop:
             "inputs before/after).  Enumerated: every pair of sibling-unique labelled forests with <= 3 nodes each over 3 labels, one "
             "representative per renaming of the labels (thorough: plus all pairs (4 nodes, <= 3 nodes) and seeded samples of the "
             "(<= 3, 4) and (4, 4) pairs); random: mutated copies (add/remove/move/swap/relabel/sort, 0-6 steps) of random trees with up "
-            "to 14 (thorough 30) nodes over 3-6 labels, unrelated random pairs, identical copies; pairs of TypedTrees with random kinds; "
+            "to 14 (thorough 30) nodes over 3-6 labels, unrelated random pairs, identical copies, the same tree object on both sides; pairs of TypedTrees with random kinds; "
             "plus an out-of-domain stream (equal-comparing objects under explicit data_ids, ids shared by unequal data; diff may raise "
             "UniqueConstraintError or lose nodes) on which model = implementation and 'inputs unchanged' are checked.  The oracle is "
             "applied exactly on the pairs inside the theorems' domain (computed independently on both sides).  distinct = distinct "
@@ -253,8 +253,11 @@ class Prop:
             r = rng.random()
             if r < 0.75:
                 t1 = mutate(rng, t0, k, rng.randint(0, 6))
-            elif r < 0.8:
+            elif r < 0.78:
                 t1 = clone_nodes(t0)
+            elif r < 0.8:
+                yield dict(univ=LABELS[:k], t0=t0, t1=clone_nodes(t0), alias=True)
+                continue
             else:
                 t1 = rand_nodes(rng, rng.randint(0, nmax), k)
             yield dict(univ=LABELS[:k], t0=t0, t1=t1)
@@ -308,7 +311,10 @@ class Prop:
         t1 = cls("T1")
         try:
             B.add_nodes(t0._root, desc["t0"], U, typed)
-            B.add_nodes(t1._root, desc["t1"], U, typed)
+            if desc.get("alias"):
+                t1 = t0     # tree.diff(tree): the same object on both sides
+            else:
+                B.add_nodes(t1._root, desc["t1"], U, typed)
         except Exception:
             return None
         return U, t0, t1, base
@@ -663,6 +669,8 @@ def ucanon(s):
 
 
 CORPUS = [
+    # tree.diff(tree): the same object on both sides
+    dict(univ=LABELS[:3], alias=True, t0=[[0, None, None, [[1, None, None, []]]], [2, None, None, []]], t1=[[0, None, None, [[1, None, None, []]]], [2, None, None, []]]),
     # D60: diff() of two typed trees raised TypeError (Node.add_child cannot construct a TypedNode copy)
     dict(univ=LABELS[:3], typed=True, t0=[[0, "k1", None, [[1, "k2", None, []]]]], t1=[[0, "k1", None, []], [1, "k1", None, []]]),
     # ambiguous re-classification: removed 'a', added branch b(a(a))... with two copies of the removed node's data
